@@ -2,6 +2,7 @@ package doubles
 
 import (
 	"context"
+	"errors"
 	"fmt"
 	"sync"
 
@@ -14,10 +15,11 @@ import (
 // Tracer is a tracer.Tracer double: spans are recording objects, and span
 // contexts are go-tracing's own stack implementation (the discipline real tracers use).
 type Tracer struct {
-	mu    sync.Mutex
-	Log   *connsim.Log
-	next  int
-	Spans []*Span
+	mu        sync.Mutex
+	Log       *connsim.Log
+	next      int
+	Spans     []*Span
+	StartErrs int
 }
 
 // Span is a recording span.
@@ -38,8 +40,15 @@ func (t *Tracer) SetEndpoint(string)    {}
 func (t *Tracer) PackageName() string   { return "verif" }
 func (t *Tracer) ServiceName() string   { return "verif" }
 func (t *Tracer) Endpoint() string      { return "" }
-func (t *Tracer) Start() error          { return nil }
-func (t *Tracer) Stop() error           { return nil }
+func (t *Tracer) Start() error {
+	// StartErrs: this many calls of Start fail first (a tracer whose exporter is not reachable yet)
+	if t.StartErrs > 0 {
+		t.StartErrs--
+		return errors.New("tracer: exporter not reachable")
+	}
+	return nil
+}
+func (t *Tracer) Stop() error { return nil }
 
 func (t *Tracer) newSpan(name string, parent int) *Span {
 	t.mu.Lock()
